@@ -315,6 +315,11 @@ def run_case(scn, plan=None, plan_class="none", report_fmt="default", emuclone=T
             files1 += prj.files(tdir, invT1, "")
         m = re.search(rb"Processed (\d+) files", r.err)
         processed = int(m.group(1)) if m else -1
+        if processed >= 0 and scn.extra_groups:
+            # `Processed N files` also counts the files of the extra groups, which are outside the modelled world: each of them has one
+            # droppable file, processed unless a warning names it
+            failed_extra = {m_.group(1) for m_ in re.finditer(rb"/r/(h\d+)/", b"\n".join(l for l in r.err.split(b"\n") if b"warn" in l))}
+            processed -= scn.extra_groups - len(failed_extra)
         warns = len(re.findall(rb"warn", r.err))
         mt1 = [{"f": prj.path(os.path.join(work, rel)), "v": str(rr["mtime"])} for rel, rr in inv1.items() if rr["t"] == "f" and rel.startswith("r/")]
         end = {"ev": "End", "inv": files1, "processed": processed, "warns": warns, "rc": r.rc,
